@@ -27,6 +27,12 @@ def make_copy(repo, dst):
 
 def apply(dst, edits):
     for e in edits:
+        if e[0] == 'patch':
+            # a unified diff (seeded property-breaking change or behaviour-preserving refactoring written by a sub-agent)
+            r = subprocess.run(['patch', '-p1', '-s', '-d', dst, '-i', e[1]], capture_output=True, text=True)
+            if r.returncode != 0:
+                return 'patch %s does not apply: %s' % (os.path.basename(os.path.dirname(e[1])) or e[1], (r.stdout + r.stderr)[-200:])
+            continue
         if e[0] == 'revert':
             # reverse-apply a fix commit of the analysed repository: the pre-fix code is a realistic mutant
             repo = os.environ.get('BLOCH_REPO', '/repo')
@@ -70,6 +76,14 @@ def run_battery(pid, only=None, repo=None, verbose=True, jobs=4):
     spec.loader.exec_module(mod)
     from concurrent.futures import ThreadPoolExecutor
     todo = [m for m in mod.MUTANTS if not (only and only not in m['name'])]
+    # independent material: the sub-agents' seeded changes for this property (must be reported) and their behaviour-preserving
+    # refactorings (every check must stay silent on all of them)
+    import glob
+    for d in sorted(glob.glob(os.path.join(VERIF, 'seeded', pid + '-*'))):
+        todo.append({'name': 'seeded:' + os.path.basename(d), 'kind': 'mutant', 'expect': None, 'edits': [('patch', os.path.join(d, 'patch.diff'))]})
+    for f in sorted(glob.glob(os.path.join(HERE, 'benign', '*.diff'))):
+        todo.append({'name': 'refactoring:' + os.path.basename(f)[:-5], 'kind': 'benign', 'edits': [('patch', f)]})
+    todo = [m for m in todo if not (only and only not in m['name'])]
     with ThreadPoolExecutor(max_workers=jobs) as ex:
         parts = list(ex.map(lambda m: _one(pid, m, repo), todo))
     results = [r for p in parts for r in p]
@@ -89,7 +103,7 @@ def _one(pid, m, repo):
             if err:
                 results.append((m['name'], 'skipped', err))
                 return results
-            se = syntax_ok(tmp, sorted({e[0] for e in m['edits'] if e[0] != 'revert'}))
+            se = syntax_ok(tmp, sorted({e[0] for e in m['edits'] if e[0] not in ('revert', 'patch')}))
             if se:
                 results.append((m['name'], 'skipped', 'mutant does not compile: ' + se[-300:]))
                 return results
